@@ -138,6 +138,42 @@ def tok_step(cx, k, active):
 # first-byte ranges that split a stream harness over the worker pool (a covering partition of 0..255)
 PARTS = [(0, 127)] + [(128 + 8 * i, 128 + 8 * i + 7) for i in range(14)] + [(b, b) for b in range(0xF0, 0x100)]
 
+ALIAS_MSGS = [[0x90, 0x3C, 0x64], [0xC5, 0x07], [0xE0, 0x00, 0x40], [0xF8], [0xF6], [0xF0, 1, 2, 0xF7], [0xF2, 1, 2]]
+
+
+@harness(labels=['yielded-messages-are-detached'])
+def detached(cx):
+    """The consumer changes a message it was handed; the same bytes arriving again must still parse to what
+    they encode (messages are not cached or shared).  Concrete menu: the trigger is object identity."""
+    import mido
+    bs = ALIAS_MSGS[cx.choice('msg', len(ALIAS_MSGS))]
+    p = mido.Parser()
+    p.feed(bs)
+    first = p.get_message()
+    want = mido.Message.from_bytes(bs)
+    cx.check(first == want, 'yielded-messages-are-detached')
+    first.time = 99
+    for name in list(vars(first)):
+        if name in ('note', 'program', 'pitch', 'pos'):
+            setattr(first, name, 1)
+        if name == 'channel':
+            first.channel = 9
+        if name == 'data':
+            first.data = (5,)
+    again = []
+    for how in range(3):
+        if how == 0:
+            p.feed(bs)
+        elif how == 1:
+            for b in bs:
+                p.feed_byte(b)
+        else:
+            p.feed(bs + bs)
+        again += list(p)
+    again += mido.parse_all(bs)
+    cx.check(len(again) == 5 and all(m == want and m is not first for m in again), 'yielded-messages-are-detached')
+
+
 @harness(labels=['long-stream-nothing-dropped'])
 def scale(cx):
     """Concrete scale probe: a long stream keeps every message (no bounded queue)."""
@@ -210,4 +246,5 @@ def JOBS(tier):
     for k in range(0, 3):
         jobs.append((feed_nonbyte, {'k': k}, {}))
     jobs.append((scale, {}, {'cost': 100}))
+    jobs.append((detached, {}, {}))
     return jobs
